@@ -356,9 +356,44 @@ def main(tier):
     if "factorized_" not in [f["name"] for f in cls["fields"]]:
         raise ir.AnalysisBroken("anchor vanished: %s::factorized_" % CLS)
     # ---------------- R-C14-1
+    import copy as _copy
+
+    def expanded(fn, depth=0, seen=()):
+        """the function body with calls of helpers of the same class (statement-level calls on *this of non-accessor methods
+        that are defined in the program) replaced by the helper's own body: the typestate rule then sees a factorisation that
+        was moved into a private helper exactly where it is called.  A `return` of the helper ends the helper, not the
+        caller's block."""
+        body = _copy.deepcopy(fn["body"])
+
+        def rewrite(st):
+            k = st.get("k")
+            if k == "Block":
+                st["s"] = [rewrite(x) for x in st["s"]]
+                return st
+            for key_ in ("t", "e", "body"):
+                if isinstance(st.get(key_), dict) and st[key_].get("k") in ("Block", "If", "For", "While", "Expr", "Omp", "DoWhile"):
+                    st[key_] = rewrite(st[key_])
+            if k == "Expr" and st["e"].get("k") == "Call" and depth < 3:
+                c = st["e"]
+                q = c.get("callee") or ""
+                th = c.get("this")
+                if q.startswith(CLS + "::") and q.split("::")[-1] not in MUT_ACC and q not in seen and th is not None and th.get("k") == "This":
+                    cands = [f for f in prog.fns(q) if len(f["params"]) == len(c["args"]) and f.get("body") is not None]
+                    if len(cands) == 1:
+                        inner = expanded(cands[0], depth + 1, seen + (q,))
+                        for n_ in ir.walk(inner):
+                            if n_.get("k") == "Return":
+                                n_.clear()
+                                n_["k"] = "Null"
+                        return inner
+            return st
+        return rewrite(body)
+
     for name in SOLVES:
-        fn = prog.fn(CLS + "::" + name)
-        ck.analysed(fn)
+        fn0 = prog.fn(CLS + "::" + name)
+        ck.analysed(fn0)
+        fn = dict(fn0)
+        fn["body"] = expanded(fn0)
         guarded_ifs = {}
         n_writes = 0
         aliases = pointer_aliases(fn)
@@ -384,7 +419,13 @@ def main(tier):
             key = "%s:flag-set" % name
             ck.instance("R-C14-1", key)
             blk = ifn["t"]
-            stm = blk["s"] if blk["k"] == "Block" else [blk]
+
+            def flat(b):
+                out = []
+                for x in (b["s"] if b["k"] == "Block" else [b]):
+                    out += flat(x) if x.get("k") == "Block" else [x]
+                return out
+            stm = flat(blk)      # nested blocks (an inlined helper) are part of the same straight-line sequence
             # no early exit inside the block; last top-level statement sets factorized_ = true
             early = [n for n in ir.walk(blk) if n.get("k") in ("Return", "Throw", "Goto")]
             top_break = [n for n in stm if n.get("k") in ("Break", "Continue")]
@@ -407,6 +448,22 @@ def main(tier):
     # ---------------- R-C14-3 : who writes factorized_
     writers = 0
     cg0 = structq.CallGraph(prog)
+
+    def only_from_solves(qn, depth=0, seen=()):
+        """a helper that only the two solve functions call (a factorisation moved into a private function): R-C14-1 examines
+        its body at the place of the call"""
+        callers = cg0.callers.get(qn, set())
+        if not callers or depth > 3:
+            return False
+        for c in callers:
+            if c in seen:
+                continue
+            if c.startswith(CLS + "::") and c.split("::")[-1] in SOLVES:
+                continue
+            if c.startswith(CLS + "::") and only_from_solves(c, depth + 1, seen + (qn,)):
+                continue
+            return False
+        return True
 
     def only_from_special_members(qn, depth=0, seen=()):
         """a helper of the class that every call chain reaches from constructors / copy / move members only (e.g. a private
@@ -435,7 +492,7 @@ def main(tier):
                             writers += 1
                             short = qn.split("::")[-1]
                             ck.instance("R-C14-3", "%s:factorized_" % short)
-                            if fn.get("special") or short in SOLVES or only_from_special_members(qn):
+                            if fn.get("special") or short in SOLVES or only_from_special_members(qn) or only_from_solves(qn):
                                 ck.ok("R-C14-3", short)
                             else:
                                 ck.violation("R-C14-3", "%s:writes-flag" % short, ir.locstr(node), "%s writes factorized_ outside the factorisation block / constructors" % qn)
